@@ -295,15 +295,22 @@ func (s *Session) Run(ctx context.Context, dir string, args ...string) error {
 								}
 
 								if output.Guard != nil {
-									exe, err := output.Guard.Exec(ctx, bss[0], nil)
-									if err != nil {
-										return err
-									}
-									if exe == nil || exe.Bs == nil {
+									// Like a machine's branch
+									// does, show the guard
+									// every candidate until it
+									// accepts one.
+									candidates := bss
+									bss = nil
+									for _, candidate := range candidates {
+										exe, err := output.Guard.Exec(ctx, candidate, nil)
+										if err != nil {
+											return err
+										}
+										if exe != nil && exe.Bs != nil {
+											bss = []match.Bindings{exe.Bs}
+											break
+										}
 										// The guard declined.
-										bss = nil
-									} else {
-										bss = []match.Bindings{exe.Bs}
 									}
 								}
 							}
